@@ -29,10 +29,17 @@ RULE = ("each case = one synthetic in-memory dataset (1-3 instruments, 1-12 / 13
         "before / between / after the Items, always one Item of a tracked instrument and one marker of an untraded exchange; every sixth paced `data_slow`) and TL<n> (2 / 6: `longdata` of 257 / 4097 / 8193 / 20000 events), "
         "1-3 plans (passive, or 1-4 market orders on TRADED instruments only, triggered by the count of Items of ALL instruments), `run 1 w` and `run m w` with m in {2,3,4,8}; corpus/C20/tracked_exchange.ops holds five of them. "
         "`seen` / `inst` / `lseen` / `linst` cover all instruments and all exchanges' markers (`seen` prints `R` / `R1` / `R2`; `lmark b c0 .. cx` = disconnect notices per exchange for long datasets). "
+        "SET-UP SHAPES (`cfg x o r u` after `tracked`, before the dataset op; own PRNG stream; corpus/C20/cfg_shapes.ops): cases G<n> (6 quick / 24 thorough: `data`, 3-40 or 200-600 Items) and GL<n> (2 / 6: `longdata` 257 / 4097 / 8193) with "
+        "x = 1-3 TRADED exchanges (BinanceSpot, Bitfinex, Coinbase: one mock ExecutionConfig each, the 2-4 instruments spread block-wise over them, so an exchange may hold two instruments; a third of the cases also `tracked 1 1`), "
+        "o = the `executions` list in exchange-index order / REVERSED, r = risk_free_return 0 for all / 0.05, 0, -0.02 by backtest / the same with every BacktestArgsDynamic::id = `dup`, "
+        "u bit 0 = ONE Arc<BacktestArgsConstant> shared by every run_backtests / backtest call of the case (all `run` ops, concurrent and alone) instead of a fresh one per call, bit 1 = a single backtest goes through run_backtests instead of backtest(); "
+        "plans of 2-4 orders that trade the LAST and the FIRST traded exchange from the first Items on (quantity 1-3, sometimes 5000 = refused). In these cases `own` also compares the summary's id, risk_free_return and Sharpe / Sortino / Calmar ratios with those of "
+        "this backtest's arguments over its own feed, and `acct b 1` states that every account event processed comes from the backtest's own execution side (snapshot of a configured exchange, fill of an own request, no failed affordable order). "
         "A case is distinct by the SHA-1 of its op lines and non-trivial when the observation blocks differ")
 ASSUMPTIONS = [
-    "MarketDataInMemory datasets of Items (any DataKind; the random and long families use trades only) and Reconnecting markers with at least one Item (MarketDataInMemory::new panics otherwise - empty and marker-only datasets; harness, model and spec all report `panic`); at most one TRADED exchange (one mock execution link; none when every instrument is tracked-only) plus 0-2 tracked-but-not-traded exchanges without ExecutionConfig, zero fees, latency_ms = 0; strategies send requests for instruments of the traded exchange only (a request to an exchange without link is another error path of the engine) (fees incl. rebates and latencies are C20E's inputs); initial balances fixed (base 100, quote 100000: Model/Backtest.initBals), no initial position; integer prices and quantities",
-    "trading enabled from the start and never disabled; no Command / TradingStateUpdate is sent during a backtest",
+    "MarketDataInMemory datasets of Items (any DataKind; the random and long families use trades only) and Reconnecting markers with at least one Item (MarketDataInMemory::new panics otherwise - empty and marker-only datasets; harness, model and spec all report `panic`); 0-3 TRADED exchanges (one mock execution link each, all with the SAME initial balances per asset - the model's exchange has one balance sheet, base 100 / quote 100000, and a plan's quantities are 1-100 or beyond every balance, so that a refusal does not depend on which exchange's quote balance is charged; none when every instrument is tracked-only; more than one only after `cfg x ..`) plus 0-2 tracked-but-not-traded exchanges without ExecutionConfig, zero fees, latency_ms = 0; strategies send requests for instruments of the traded exchange only (a request to an exchange without link is another error path of the engine) (fees incl. rebates and latencies are C20E's inputs); initial balances fixed (base 100, quote 100000: Model/Backtest.initBals), no initial position; integer prices and quantities",
+    "trading enabled from the start and never disabled; no Command / TradingStateUpdate is sent during a backtest (an engine_state with TradingState::Disabled is a legal BacktestArgsConstant: the strategy is then never consulted and the harness's per-backtest sink, filled from generate_algo_orders, stays empty - not generated, listed as open in the configuration-shape audit)",
+    "summary_interval = Daily and DefaultRiskManager in every case; engine_state.time_engine_start = the time of the initial balances; no pre-existing positions / orders in the initial engine state (EngineStateBuilder offers none)",
     "the engine state handed to the backtests already carries the exchange's initial balances (as in the repo's example config), so the initial account snapshot is idempotent",
     "the engine is an arbitrary deterministic function of its state and event (strategy, risk manager, recorders included); a strategy with interior randomness or wall-clock reads is outside the model",
     "N concurrent backtests share nothing mutable (Arc'd dataset / configuration are read-only, no global state): assumed by the model, probed only by the correspondence run",
@@ -116,7 +123,9 @@ def signature(ops, k, key, impl_line, spec_line):
             return "clause=consumes_all/long_dataset/content" + trk
         return "clause=consumes_all/long_dataset/" + key + trk
     if key == "own":
-        return "clause=summary_own_engine"
+        return "clause=summary_own_engine" + ("/cfg" if any(o.startswith("cfg") for o in ops) else "")
+    if key == "acct":
+        return "clause=summary_own_engine/account_events_own"
     return "clause=" + key
 
 # further models / theorems / correspondences for code around this property (see DESIGN.md §13.6)
